@@ -6,7 +6,12 @@ from .family import ModelCfg, run_family
 from .scopes import consts, family
 
 OPS = '{"open", "close", "yield", "wait", "sleep", "cancel", "shield"}'
+OPSR = '{"open", "yield", "cancel", "close"}'
 FAMILY = family("C03", [
+    # a runnable task inside nested scopes that are cancelled in the same step by a sibling, and that
+    # catches the cancellation and waits again (cleanup kind 2): must be interrupted again
+    ModelCfg("c03-n2o4e0-rewait", consts(2, 4, 0, OPSR, cleanups="{0, 2}", shields="{0}", env="{}"),
+             emit=True, check=False, max_scenarios=6000),
     ModelCfg("c03-n1o4e2", consts(1, 4, 2, OPS, cleanups="{0, 1}", pres="{0, 1}"), emit=True, check=False,
              max_scenarios=4000),
     ModelCfg("c03-n2o3e1", consts(2, 3, 1, OPS, cleanups="{0, 1}"), tiers=("quick",), check=False,
